@@ -722,13 +722,13 @@ class Interp:
         args = [self.eval(unit, a, env, this) for a in n.get("args", [])]
         kind = n.get("ctor")
         d = unit.decls.get(n.get("callee"))
-        if kind in ("copy", "move") and len(args) == 1:
-            return args[0]
         h = self.cfg.hooks.get("construct")
         if h is not None:
             r = h(self, cls, kind, args, d, unit, n)
             if r is not None:
                 return r
+        if kind in ("copy", "move") and len(args) == 1:
+            return args[0]
         if cls == OPT:
             if not args:
                 return ("new", OPT, "none", ())
@@ -866,6 +866,32 @@ class Interp:
                 return ("app", "alt_payload<%s>" % ty, (v,))
             self.path.events.append(("UNSAFE", (v,), unit.loc(n.get("loc"))))
             return ("app", "alt_payload<%s>" % ty, (v,))
+        if qn == "fcppt::variant::match" and len(args) >= 2:
+            # semantic summary (its index selection is pinned by the C04 type witnesses): the i-th function is
+            # applied to the payload of the i-th alternative, alternatives in type-list order, exactly one holds
+            v = args[0]
+            fs = args[1:]
+            pt = _strip_cvref(unit.ty(d["ptypes"][0])) if d.get("ptypes") else ""
+            types = [_norm_type(t) for t in (_class_targs(pt) or [])]
+            if len(types) != len(fs):
+                raise Unsupported("variant::match with %d functions over %s" % (len(fs), pt))
+            chosen = None
+            if isinstance(v, tuple) and v[0] == "new" and v[1] == VAR:
+                for i, ty in enumerate(types):
+                    if _norm_type(v[2]) == ty:
+                        chosen = i
+                payload = v[3][0]
+            else:
+                for i, ty in enumerate(types[:-1]):
+                    if self.truth(self.var_holds(v, ty)):
+                        chosen = i
+                        break
+                if chosen is None:
+                    chosen = len(types) - 1
+                payload = ("app", "alt_payload<%s>" % types[chosen], (v,))
+            if chosen is None:
+                raise Unsupported("variant::match: constructed alternative %s not in %s" % (v[2], types))
+            return self.apply(fs[chosen], [payload], unit, unit.loc(n.get("loc")), None)
         if qn == "fcppt::not_":
             return mk_not(args[0])
         if qn in ("fcppt::algorithm::find_if_opt",) and len(args) == 2:
